@@ -312,6 +312,51 @@ fn sequences<E: Ep>(run: &Arc<Run>, variant: Variant, depth: usize) {
     run.merge_classes(local);
 }
 
+/// Packets filled to the brim: two or three chunks queued without a flush whose bytes
+/// (headers included) add up to every total around the largest datagram, then flushed, or
+/// lost and rebuilt by the resend path. Each emitted datagram goes through `check_datagram`.
+fn brim<E: Ep>(run: &Arc<Run>, variant: Variant) {
+    let base = Pair::<E>::online(variant);
+    let mut cases: Vec<Vec<Op>> = Vec::new();
+    for total in 1376..=1406usize {
+        for (v1, v2) in [(true, true), (true, false), (false, true), (false, false)] {
+            let h = |v: bool| if v { 3 } else { 2 };
+            for first in [0usize, 1, 360, 700, 1000] {
+                // two chunks
+                if total >= first + h(v1) + h(v2) {
+                    let second = total - first - h(v1) - h(v2);
+                    for tail in [vec![Op::Flush], vec![Op::Tick(500_000)], vec![Op::Flush, Op::Tick(1_000_000)], vec![Op::PeerRequestsResend], vec![Op::Send(0, true), Op::Flush], vec![Op::Disconnect(1)]] {
+                        let mut seq = vec![Op::Send(first, v1), Op::Send(second, v2)];
+                        seq.extend(tail);
+                        cases.push(seq);
+                    }
+                }
+                // three chunks: a small one in the middle
+                if total >= first + h(v1) + h(v2) + 3 + 5 {
+                    let third = total - first - h(v1) - h(v2) - 3 - 5;
+                    cases.push(vec![Op::Send(first, v1), Op::Send(5, true), Op::Send(third, v2), Op::Flush]);
+                    cases.push(vec![Op::Send(first, v1), Op::Send(5, true), Op::Send(third, v2), Op::Flush, Op::Tick(1_000_000), Op::Tick(500_000)]);
+                }
+            }
+        }
+    }
+    let local = cases
+        .par_iter()
+        .fold(LocalClasses::new, |mut lc, seq| {
+            let refs: Vec<&Op> = seq.iter().collect();
+            lc.eval();
+            match run_sequence(run, &base, &refs) {
+                Ok(class) => lc.class(&format!("brim:{}:{}", variant.name(), class), || json!(seq.iter().map(op_json).collect::<Vec<_>>())),
+                Err((sig, detail)) => {
+                    run.violation(&format!("{}:{}", variant.name(), sig), &detail, json!({"api_sequence": seq.iter().map(op_json).collect::<Vec<_>>(), "variant": variant.name(), "family": "packets filled to the brim"}));
+                }
+            }
+            lc
+        })
+        .reduce(LocalClasses::new, |a, b| a.merge(b));
+    run.merge_classes(local);
+}
+
 fn many_small<E: Ep>(run: &Arc<Run>, variant: Variant, max_n: usize) {
     let base = Pair::<E>::online(variant);
     // (n, size, vital, lose): with `lose` the first transmission is lost and the chunks
@@ -412,10 +457,12 @@ fn main() {
             Variant::V7 => {
                 sequences::<libtw2_net::connection7::Connection>(&run, v, depth);
                 many_small::<libtw2_net::connection7::Connection>(&run, v, 700);
+                brim::<libtw2_net::connection7::Connection>(&run, v);
             }
             _ => {
                 sequences::<libtw2_net::connection::Connection>(&run, v, depth);
                 many_small::<libtw2_net::connection::Connection>(&run, v, 700);
+                brim::<libtw2_net::connection::Connection>(&run, v);
             }
         }
     }
@@ -440,7 +487,7 @@ fn main() {
     vp_net::record(&run, &outcomes);
     run.add_evals(outcomes.iter().map(|o| o.transitions).sum());
     run.finish(
-        &format!("all API call sequences of length <= {} over a {}-operation alphabet on an online endpoint (0.6+token, 0.6, 0.7), every emitted datagram read back with the library's own reader (no error, no warning, chunk count, chunks bit-identical); n = 1..700 small chunks without flush; wire monitor on every datagram of the two-endpoint model", depth, ops().len()),
+        &format!("all API call sequences of length <= {} over a {}-operation alphabet on an online endpoint (0.6+token, 0.6, 0.7), every emitted datagram read back with the library's own reader (no error, no warning, chunk count, chunks bit-identical); n = 1..700 small chunks without flush; two and three chunks adding up to every total 1376..1406 bytes queued without a flush, then flushed / ticked / resent; wire monitor on every datagram of the two-endpoint model", depth, ops().len()),
         true,
     );
 }
